@@ -93,14 +93,29 @@ _INT_POOL = [0, 1, 2, 3, 4, 5, 7, 8, 15, 16, 31, 32, 63, 64, 65, 127, 128,
 
 
 def _draw_int(rng, lo, hi):
-    if lo is not None and hi is not None and hi - lo <= 64:
+    if lo is not None and hi is not None:
+        if hi < lo:
+            raise Infeasible('empty range')
+        if hi - lo <= 8:
+            return rng.randint(lo, hi)
+        r = rng.random()
+        if r < 0.15:
+            return lo
+        if r < 0.3:
+            return hi
+        if r < 0.4:
+            return lo + 1
+        if r < 0.5:
+            return hi - 1
+        if r < 0.75:
+            return min(hi, lo + rng.choice(_INT_POOL[:24]))
         return rng.randint(lo, hi)
     r = rng.random()
     if r < 0.55:
         v = rng.choice(_INT_POOL)
         if rng.random() < 0.3:
             v += rng.choice([-1, 1])
-        if rng.random() < 0.15:
+        if rng.random() < 0.15 and lo is None:
             v = -v
     elif r < 0.85:
         v = rng.randint(-4, 600)
@@ -171,6 +186,8 @@ def fresh_bytes(name, min_len=None, max_len=None, length=None):
         rng = c.rng
         if length is not None:
             n = length
+            if n > (1 << 21) or n < 0:
+                raise Infeasible('sampled byte length out of budget')
         else:
             lo = min_len or 0
             hi = max_len if max_len is not None else lo + rng.choice(
